@@ -6,7 +6,7 @@
    fields it governs, set to another class: empty / one / several / maximal, integers at
    0 / 1 / all-ones / high bit).  Generated values:
        the base, the base with one variant, the base with two variants of different fields
-       (Pairs = TRUE; big variants only alone), and for ClientHello / ServerHello a second
+       (for the types in PairTypes; big variants only alone), and for ClientHello / ServerHello a second
        base with every extension present.
    A candidate is kept iff Fits (every vector within the bounds its length prefix and the
    RFC minimum allow, the message within 2^24) and Valid (TLSWire.tla).
@@ -19,7 +19,7 @@
 EXTENDS TLSWire, Json, SequencesExt
 
 CONSTANTS TypesToDo,     \* subset of Types handled by this TLC process
-          Pairs,         \* BOOLEAN
+          PairTypes,     \* the types for which pairs of variants are generated too
           OutPrefix      \* file name prefix
 
 F(n, tag) == [i \in 1..n |-> 65 + ((tag + i) % 26)]
@@ -216,7 +216,7 @@ Candidates(t) ==
       n == Len(vs)
   IN {bs[b] : b \in 1..Len(bs)}
      \cup {vs[i].d @@ bs[b] : i \in 1..n, b \in 1..Len(bs)}
-     \cup (IF Pairs THEN {vs[i].d @@ vs[j].d @@ bs[1] :
+     \cup (IF t \in PairTypes THEN {vs[i].d @@ vs[j].d @@ bs[1] :
                              <<i, j>> \in {p \in (1..n) \X (1..n) :
                                              /\ p[1] < p[2] /\ ~vs[p[1]].big /\ ~vs[p[2]].big
                                              /\ DOMAIN vs[p[1]].d \cap DOMAIN vs[p[2]].d = {}}}
@@ -239,10 +239,7 @@ CasesOf(t) == LET vs == ValSeq(t) pf == PF(t) IN
               [i \in 1..Len(vs) |-> [t |-> t, v |-> vs[i], bytes |-> Layout(t, vs[i]), pf |-> pf]]
 FileOf(t) == OutPrefix \o t \o ".ndjson"
 
-TypeSeq == SetToSeq(TypesToDo)
-ASSUME TypesToDo \subseteq Types
-ASSUME \A i \in 1..Len(TypeSeq) :
-  LET t == TypeSeq[i] IN
+CheckType(t) ==
   /\ Assert(Fits(t, Base(t)) /\ Valid(t, Base(t)), <<"base value not valid", t>>)
   /\ Assert(RoundTripOK(t), <<"Parse(Layout(v)) # v", t>>)
   /\ Assert(PF(t) = (t \notin NotPrefixFree), <<"prefix-freeness classification", t, PF(t)>>)
@@ -250,4 +247,15 @@ ASSUME \A i \in 1..Len(TypeSeq) :
   /\ ndJsonSerialize(FileOf(t), CasesOf(t))
   /\ PrintT(ToJson([wire |-> t, candidates |-> Cardinality(Candidates(t)), values |-> Len(ValSeq(t)),
                       small |-> Cardinality(SmallValues(t)), pf |-> PF(t)]))
+
+(* The per-type work is hung on a tiny state graph so that TLC's workers share it:
+   stage 0 --(pick a type)--> stage 1 --> stage 2; the invariant does the work at stage 2,
+   evaluated by whichever worker dequeued the stage-1 state.                            *)
+VARIABLES stage, typ
+Init == stage = 0 /\ typ = ""
+Next == \/ stage = 0 /\ stage' = 1 /\ typ' \in TypesToDo
+        \/ stage = 1 /\ stage' = 2 /\ typ' = typ
+Spec == Init /\ [][Next]_<<stage, typ>>
+Checked == stage = 2 => CheckType(typ)
+ASSUME TypesToDo \subseteq Types
 =============================================================================
